@@ -331,7 +331,27 @@ def rule_every_leaf_named(ctx: Ctx, rep: Report) -> None:
            f"the leaf hash is appended under `{other_guard}`: a key in two different leaves is given the first one only, and the signer never signs the second")
 
 
+def rule_engine_admits(ctx: Ctx, rep: Report) -> None:
+    """C10.engine_admits: two engine rules on which the acceptance of what the
+    library builds depends (decided by C08's analyses, reported here for the
+    spends the library builds): an empty signature is not charged to the
+    tapscript sigops budget -- a k-of-n multi_a leaf holds n-k of them -- and
+    the p2wsh witness script is not held to the 520-byte element limit -- a
+    16-key wsh(multi()) is 547 bytes."""
+    from rules.C08 import initial_stack_limits, sigops_charge
+    sigops_charge(ctx, rep, "C10.engine_admits")
+    initial_stack_limits(ctx, rep, "C10.engine_admits")
+
+
+def rule_memo_key_complete_(ctx: Ctx, rep: Report) -> None:
+    """C10.memo_key_complete: a value computed once and kept is reset inside every loop whose variable it reads (see sigcommon.rule_memo_key_complete)."""
+    from rules.sigcommon import rule_memo_key_complete
+    rule_memo_key_complete(ctx, rep, "C10.memo_key_complete", ('btclib.psbt', 'btclib.psbt_signer', 'btclib.bip322', 'btclib.script'))
+
+
 RULES = [
+    ("C10.memo_key_complete", rule_memo_key_complete_),
+    ("C10.engine_admits", rule_engine_admits),
     ("C10.witness_order", rule_witness_order),
     ("C10.every_leaf_named", rule_every_leaf_named),
     ("C10.params_forwarded", rule_params_forwarded_),
